@@ -322,5 +322,5 @@ def hyp_cases(draw, tier):
 
 
 PARTS = [
-    Part("queries", run, strategy=lambda tier: hyp_cases(tier), n={"quick": 500, "thorough": 40000}),
+    Part("queries", run, strategy=lambda tier: hyp_cases(tier), n={"quick": 500, "thorough": 100000}),
 ]
